@@ -17,8 +17,11 @@ Fixpoint suffixes (t : table) : list table :=
 Definition is_suffix (u t : table) : bool := existsb (tbl_eqb u) (suffixes t).
 
 Inductive act :=
-| Read (t : table)      (* Get / GetAnyScope ... on table t *)
-| Write (t : table)     (* Set / SetAlways / Create / Delete on table t *)
+| Read (t : table)      (* GetLocal / a Get that finds the name in t: reads t under its read lock *)
+| Write (t : table)     (* Set / SetAlways / Create / Delete on table t: under its write lock *)
+| Lookup (t : table)    (* a Get that falls through the boundary table t: reads t under its read lock and
+                           calls t.FindNextScope(), which consults and may fill t's next-scope cache
+                           (nextScope / nextScopeCached) while only that read lock is held *)
 | Mark (t : table).     (* t.Shared(true): t and all its ancestors *)
 
 Inductive tid := P | C. (* the launching goroutine after the `go` statement / the new goroutine *)
@@ -28,27 +31,67 @@ Definition flags := list table.
 Definition is_shared (S : flags) (t : table) : bool := existsb (tbl_eqb t) S.
 Definition mark (S : flags) (t : table) : flags := suffixes t ++ S.
 
-(* one recorded access since the fork *)
-Record access := mkAcc { a_tid : tid; a_tbl : table; a_write : bool; a_locked : bool }.
+(* which lock of the table's RW mutex an access holds *)
+Inductive lockmode := NoLock | RLock | WLock.
+Definition rmode (S : flags) (t : table) : lockmode := if is_shared S t then RLock else NoLock.
+Definition wmode (S : flags) (t : table) : lockmode := if is_shared S t then WLock else NoLock.
+(* two lock holders exclude each other iff both hold the mutex and one holds it for writing *)
+Definition excluded (x y : lockmode) : bool :=
+  match x, y with WLock, RLock | WLock, WLock | RLock, WLock => true | _, _ => false end.
 
-(* two accesses race: same table, different goroutines, one writes, one of them did not lock *)
+(* one recorded access since the fork *)
+Record access := mkAcc { a_tid : tid; a_tbl : table; a_write : bool; a_lock : lockmode }.
+
+(* two accesses race: same table, different goroutines, one writes, and the locks they hold do not
+   exclude each other (one is unlocked, or both hold only the read lock) *)
 Definition conflict (x y : access) : bool :=
   tbl_eqb (a_tbl x) (a_tbl y) && negb (tid_eqb (a_tid x) (a_tid y)) &&
-  (a_write x || a_write y) && (negb (a_locked x) || negb (a_locked y)).
+  (a_write x || a_write y) && negb (excluded (a_lock x) (a_lock y)).
 
 Record state := mkState { shared : flags; hist : list access; raced : bool }.
+Definition record (s : state) (a : access) : state :=
+  mkState (shared s) (a :: hist s) (raced s || existsb (conflict a) (hist s)).
 
-Definition step (s : state) (e : tid * act) : state :=
+(* tables.go cachedNextScope / setCachedNextScope: the cache is neither consulted nor filled for a
+   shared table ([pol] = false: the code as it is).  [pol] = true is the variant that caches on shared
+   tables too ("the value is idempotent, no lock needed"). *)
+Definition cache_written (pol : bool) (S : flags) (t : table) : bool := pol || negb (is_shared S t).
+
+Definition step_pol (pol : bool) (s : state) (e : tid * act) : state :=
   match snd e with
   | Mark t => mkState (mark (shared s) t) (hist s) (raced s)
-  | Read t =>
-      let a := mkAcc (fst e) t false (is_shared (shared s) t) in
-      mkState (shared s) (a :: hist s) (raced s || existsb (conflict a) (hist s))
-  | Write t =>
-      let a := mkAcc (fst e) t true (is_shared (shared s) t) in
-      mkState (shared s) (a :: hist s) (raced s || existsb (conflict a) (hist s))
+  | Read t => record s (mkAcc (fst e) t false (rmode (shared s) t))
+  | Write t => record s (mkAcc (fst e) t true (wmode (shared s) t))
+  | Lookup t =>
+      let s1 := record s (mkAcc (fst e) t false (rmode (shared s) t)) in
+      if cache_written pol (shared s) t
+      then record s1 (mkAcc (fst e) t true (rmode (shared s) t))   (* plain field stores under the read lock *)
+      else s1
   end.
-Definition run (S0 : flags) (il : list (tid * act)) : state := fold_left step il (mkState S0 [] false).
+Definition run_pol (pol : bool) (S0 : flags) (il : list (tid * act)) : state :=
+  fold_left (step_pol pol) il (mkState S0 [] false).
+Definition step := step_pol false.
+Definition run := run_pol false.
+
+(* ---- sequential observation of the same functions on one goroutine (correspondence with the real
+   symbols package): after each operation, the shared flags of the tables of U and which tables of U
+   had their next-scope cache filled by that operation.  A Get of a name that lives in the root walks
+   every non-root ancestor-or-self; only boundary tables (list B) use the cache. *)
+Inductive sop := SMark (t : table) | SGet (t : table) | SSet (t : table).
+Definition is_root (t : table) : bool := match t with [] => true | _ => false end.
+Definition lookup_dirty (pol : bool) (B : list table) (S : flags) (t : table) : list table :=
+  filter (fun u => negb (is_root u) && existsb (tbl_eqb u) B && cache_written pol S u) (suffixes t).
+Fixpoint seq_obs (pol : bool) (B U : list table) (S : flags) (ops : list sop) : list (list bool * list bool) :=
+  match ops with
+  | [] => []
+  | o :: r =>
+      let S' := match o with SMark t => mark S t | _ => S end in
+      let d := match o with
+               | SGet t => map (fun u => existsb (tbl_eqb u) (lookup_dirty pol B S t)) U
+               | _ => map (fun _ => false) U
+               end in
+      (map (is_shared S') U, d) :: seq_obs pol B U S' r
+  end.
 
 (* ---- what each goroutine can reach
    common: tables both can reach (the captured scope chain of a closure, the chain above the first
@@ -56,7 +99,7 @@ Definition run (S0 : flags) (il : list (tid * act)) : state := fold_left step il
    (function / block scopes pushed after the fork, the child's "Go routine" table, call frames) and
    everything below them. *)
 Definition under (roots : list table) (t : table) : bool := existsb (fun r => is_suffix r t) roots.
-Definition act_tbl (a : act) : table := match a with Read t | Write t | Mark t => t end.
+Definition act_tbl (a : act) : table := match a with Read t | Write t | Lookup t | Mark t => t end.
 
 Record scopes := mkScopes { common : list table; rootsP : list table; rootsC : list table }.
 Definition reach (sc : scopes) (who : tid) (t : table) : bool :=
